@@ -73,7 +73,10 @@ func (p *c13) Init(tier string) {
 					if warm && a != b && tier == "quick" {
 						continue // a warm cache has no writers: only self-pairs in the quick tier
 					}
-					heavy := func(q int) bool { n := c13Queries[q].name; return strings.HasPrefix(n, "parallel") || n == "async" || n == "spinasync" }
+					heavy := func(q int) bool {
+						n := c13Queries[q].name
+						return strings.HasPrefix(n, "parallel") || n == "async" || n == "spinasync"
+					}
 					if tier == "quick" && heavy(a) && heavy(b) {
 						continue // two queries that both spawn goroutines: thorough tier only (the free switches at thread exits multiply)
 					}
